@@ -33,10 +33,10 @@ def snapshot(root):
 
 def populate(root, variant):
     """pre-existing contents; variant selects which near-miss names exist where"""
-    for d in ('in', 'cwd', 'out', 'out/sub', 'elsewhere', 'out/' + LONGDIR):
+    for d in ('in', 'cwd', 'out', 'out/sub', 'out/sub.d', 'elsewhere', 'out/' + LONGDIR):
         os.makedirs(os.path.join(root, d), exist_ok=True)
     os.symlink('out', os.path.join(root, 'lnk'))
-    dirs = ['out', 'out/sub', 'elsewhere', 'cwd', 'out/' + LONGDIR]
+    dirs = ['out', 'out/sub', 'out/sub.d', 'elsewhere', 'cwd', 'out/' + LONGDIR]
     for di, d in enumerate(dirs):
         for ni, n in enumerate(NEAR):
             if variant == 0 or (variant == 1 and (ni + di) % 2 == 0) or (variant == 2 and (ni + di) % 3 == 0):
@@ -49,7 +49,9 @@ def populate(root, variant):
 
 
 OUTSHAPES = [('out', 'out.c'), ('out', './out.c'), ('out', '../out/out.c'), ('out', 'sub/out.c'), ('cwd', 'ABS/out/out.c'), ('out', 'outx'), ('out', 'out.tar.c'),
-             ('out', LONGDIR + '/out.c'), ('cwd', '../lnk/out.c'), ('cwd', '../out/sub/a_rather_long_basename_for_the_output_file.c'), ('out', 'sub/../out.c')]
+             ('out', LONGDIR + '/out.c'), ('cwd', '../lnk/out.c'), ('cwd', '../out/sub/a_rather_long_basename_for_the_output_file.c'), ('out', 'sub/../out.c'),
+             # no extension in the file name while a DIRECTORY component contains a dot
+             ('out', './outx'), ('cwd', '../out/outx'), ('out', 'sub.d/outx'), ('cwd', 'ABS/out/sub.d/outx'), ('out', 'sub.d/out.c')]
 
 
 def model(root, cwd, outpath, opts):
@@ -229,7 +231,7 @@ def main(tier):
     chk.cov['option_sets'] = len(optsets)
     chk.cov['near_miss_names'] = NEAR + ['d0000000003.c/ (directory)']
     chk.cov['rule'] = ('every output-path shape (relative, ./, ../, nested, absolute, no extension, two extensions, 200-character directory, through a symlinked '
-                       'directory, long basename) x working directory x option sets (thorough: the full product {-f 0,1,2}x{-t 1,3}x{-d arrays,gnu-ld}x{-c}x{-r}x{-g}x{-p}x{-m} '
+                       'directory, long basename, extension-less name below ./, ../ and a directory whose name contains a dot) x working directory x option sets (thorough: the full product {-f 0,1,2}x{-t 1,3}x{-d arrays,gnu-ld}x{-c}x{-r}x{-g}x{-p}x{-m} '
                        'x 3 layouts of pre-existing near-miss names in the output directory, its sub-directory, the working directory and an unrelated directory); '
                        'monitors: tree snapshot diff + strace of every mutating call; allowed: output, header, [sd][0-9]{10}.c, datasegments (gnu-ld only) in '
                        'dirname(output); deletions only of pattern names there and only with -c. distinct_nontrivial = runs with at least one observed effect')
